@@ -630,7 +630,7 @@ class AliasInline(ast.NodeTransformer):
                 if v in params or stores.get(v, 0) != 1 or r not in params or stores.get(r, 0) or \
                         any(sc == t or sc.startswith(t + '.') or t.startswith(sc + '.') for sc in stored_chains):
                     continue
-                if MUTABLE_ATTRS is None or not MUTABLE_ATTRS.final(st.value, getattr(self, 'cname', None)):
+                if not getattr(self, 'force', False) and (MUTABLE_ATTRS is None or not MUTABLE_ATTRS.final(st.value, getattr(self, 'cname', None))):
                     continue        # a call between the alias and a use could assign the attribute: the local may hold the old value
                 aliases[v] = st
         if not aliases:
